@@ -1,11 +1,1453 @@
-//! C20: not built yet
+//! C20: messages cross protocol versions; MQTT 5 properties are dropped towards 3.1.1
+//! subscribers and preserved towards MQTT 5 subscribers; every notification the routing core
+//! emits can be encoded by the receiving connection's protocol.
+//!
+//! S6 (deciding, delivery clause): publishers and subscribers on the v4 and the v5 listener of
+//! one broker (all four pairs), scripted raw-byte clients decoded with the client crate's
+//! codecs plus, in a part of the cases, real `rumqttc` v4 / v5 event loops on both sides.
+//! S1 (encode clause): every notification shape the router builds is converted with the
+//! production `Notification -> Packet` conversion and written with `V4.write` / `V5.write`
+//! under the panic monitor, then decoded with the client crate's codec.
 use super::{Meta, Prop};
-use crate::common::{Ctx, Stats};
+use crate::common::{fnv, guarded, judge, panic_site, sharded, Ctx, Judged, Record, Rng, Stats};
+use crate::gen::canon::{self, Canon, PVal, Props, Sizes};
+use crate::gen::dpkt;
+use crate::sub::codecs::{decode_step, CodecUnderTest, Step, C4, C5};
+use crate::sub::s6::{self, helper_client, Broker, ListenerCfg, Raw, Rt, RxPub, S6Err, TaskEnd, Ver};
+use bytes::BytesMut;
+use rumqttd::protocol as dp;
+use rumqttd::protocol::Protocol;
+use rumqttd::verif::Ack;
+use rumqttd::{Forward, Notification};
+use serde::{Deserialize, Serialize};
+use serde_json::{json, Value};
+use std::time::Duration;
 
-fn run(_ctx: &Ctx) -> Stats {
-    let mut s = Stats::default();
-    s.inconclusive.push("check not built yet".into());
-    s
+// ================================================================ S6: delivery clause
+
+#[derive(Clone, Debug, PartialEq, Eq, Serialize, Deserialize)]
+pub struct SubSpec {
+    pub v5: bool,
+    /// subscribe to `t<n>/#` instead of `t<n>/a`
+    pub wildcard: bool,
+    pub qos: u8,
+    /// MQTT 5: subscription identifier
+    pub sub_id: Option<u32>,
+    /// MQTT 5: Topic Alias Maximum announced in CONNECT (0 = none)
+    pub alias_max: u16,
+}
+
+#[derive(Clone, Debug, PartialEq, Eq, Serialize, Deserialize)]
+pub struct Msg {
+    /// "a" or "b": topic `t<n>/a` / `t<n>/b`
+    pub leaf: String,
+    pub qos: u8,
+    pub retain: bool,
+    pub payload_len: usize,
+    /// the publisher's properties except the topic alias
+    pub props: Props,
+    /// publisher-side topic alias: (alias, send the topic name too)
+    pub alias: Option<(u16, bool)>,
+}
+
+#[derive(Clone, Debug, PartialEq, Eq, Serialize, Deserialize)]
+pub struct Case {
+    pub n: u64,
+    pub pub_v5: bool,
+    pub subs: Vec<SubSpec>,
+    pub msgs: Vec<Msg>,
+    /// later subscribers (retained replay): protocol versions
+    pub late: Vec<bool>,
+    /// a v5 client with a will carrying these will properties dies before the sentinel
+    pub will_props: Option<Props>,
+}
+
+impl Case {
+    fn topic(&self, leaf: &str) -> String {
+        format!("t{}/{}", self.n, leaf)
+    }
+    fn payload(&self, i: usize) -> Vec<u8> {
+        let mut p = format!("m:{}:{}:", self.n, i).into_bytes();
+        let want = self.msgs[i].payload_len;
+        while p.len() < want {
+            p.push(b'a' + (p.len() % 26) as u8);
+        }
+        p
+    }
+    fn will_payload(&self) -> Vec<u8> {
+        format!("will:{}", self.n).into_bytes()
+    }
+    fn has_props(&self) -> bool {
+        self.msgs.iter().any(|m| !m.props.is_empty() || m.alias.is_some()) || self.will_props.as_ref().is_some_and(|p| !p.is_empty())
+    }
+    /// inputs that reproduce known findings
+    fn trigger_v4_props(&self) -> bool {
+        self.pub_v5 && self.has_props() && (self.subs.iter().any(|s| !s.v5) || self.late.iter().any(|v| !*v))
+    }
+    fn trigger_alias_wildcard(&self) -> bool {
+        self.subs.iter().any(|s| s.v5 && s.alias_max > 0 && s.wildcard)
+    }
+    fn shape(&self) -> u64 {
+        let m: Vec<_> = self
+            .msgs
+            .iter()
+            .map(|m| (m.leaf.clone(), m.qos, m.retain, m.payload_len > 120, m.props.iter().map(|p| p.0).collect::<Vec<_>>(), m.alias))
+            .collect();
+        fnv(format!("{}|{:?}|{m:?}|{:?}|{:?}", self.pub_v5, self.subs, self.late, self.will_props.as_ref().map(|p| p.iter().map(|x| x.0).collect::<Vec<_>>())).as_bytes())
+    }
+}
+
+/// what a subscriber (or later subscriber) must have received for one message
+#[derive(Clone, Debug, Serialize)]
+pub struct Expect {
+    pub what: String,
+    pub topic: Vec<u8>,
+    pub payload: Vec<u8>,
+    pub props: Props,
+}
+
+#[derive(Clone, Debug, Default, Serialize)]
+pub struct SubObs {
+    pub complete: bool,
+    pub lost: Option<TaskEnd>,
+    pub received: Vec<RxPub>,
+}
+
+#[derive(Clone, Debug, Default, Serialize)]
+pub struct Obs {
+    pub subs: Vec<SubObs>,
+    pub late: Vec<SubObs>,
+    pub publisher_ok: bool,
+    pub notes: Vec<String>,
+}
+
+const COMPARED: &[u8] = &[
+    canon::P_PAYLOAD_FORMAT,
+    canon::P_MESSAGE_EXPIRY,
+    canon::P_CONTENT_TYPE,
+    canon::P_RESPONSE_TOPIC,
+    canon::P_CORRELATION_DATA,
+    canon::P_USER,
+];
+
+fn compared(p: &Props) -> Props {
+    p.iter().filter(|(i, _)| COMPARED.contains(i)).cloned().collect()
+}
+
+/// first difference between the properties a publisher sent and the ones an MQTT 5 subscriber got
+fn props_diff(sent: &Props, got: &Props) -> Option<String> {
+    let s = compared(sent);
+    let g = compared(got);
+    if s.len() != g.len() {
+        let ids = |p: &Props| p.iter().map(|x| x.0).collect::<Vec<_>>();
+        return Some(format!("property identifiers sent {:?}, received {:?}", ids(&s), ids(&g)));
+    }
+    for (a, b) in s.iter().zip(g.iter()) {
+        if a.0 != b.0 {
+            return Some(format!("property {} sent, {} received in its place", a.0, b.0));
+        }
+        if a.0 == canon::P_MESSAGE_EXPIRY {
+            // the broker may count the expiry interval down
+            match (&a.1, &b.1) {
+                (PVal::U32(x), PVal::U32(y)) if y <= x => continue,
+                _ => return Some(format!("message expiry sent {:?}, received {:?}", a.1, b.1)),
+            }
+        }
+        if a.1 != b.1 {
+            return Some(format!("property {} sent {:?}, received {:?}", a.0, a.1, b.1));
+        }
+    }
+    None
+}
+
+async fn open_sub(b: &Broker, case: &Case, s: &SubSpec, name: &str) -> Result<Raw, S6Err> {
+    let ver = if s.v5 { Ver::V5 } else { Ver::V4 };
+    let mut c = s6::connect(s6::ver_num(ver), name, true, 60);
+    if s.v5 && s.alias_max > 0 {
+        c.props = vec![(canon::P_TOPIC_ALIAS_MAX, PVal::U16(s.alias_max))];
+    }
+    let mut r = b.open(b.listener(ver));
+    let out = r.connect(&c).await?;
+    if !out.accepted() {
+        return Err(S6Err::Harness(format!("subscriber {name} not accepted: {}", out.brief())));
+    }
+    let filter = if s.wildcard { case.topic("#") } else { case.topic("a") };
+    if r.subscribe(&filter, s.qos, s.sub_id).await?.is_none() {
+        return Err(S6Err::Harness(format!("subscriber {name} got no SUBACK")));
+    }
+    Ok(r)
+}
+
+/// like `open_sub`, but a connection that the broker ends instead of answering the SUBSCRIBE is an observation
+async fn open_late(b: &Broker, case: &Case, s: &SubSpec, name: &str) -> Result<Result<Raw, TaskEnd>, S6Err> {
+    let ver = if s.v5 { Ver::V5 } else { Ver::V4 };
+    let mut r = helper_client(b, ver, name).await?;
+    let filter = if s.wildcard { case.topic("#") } else { case.topic("a") };
+    if r.subscribe(&filter, s.qos, s.sub_id).await?.is_none() {
+        return Ok(Err(r.join().await?));
+    }
+    Ok(Ok(r))
+}
+
+async fn finish_helper(mut r: Raw) -> Result<(), S6Err> {
+    if r.is_open() {
+        r.disconnect().await?;
+    }
+    r.close();
+    r.join().await?;
+    Ok(())
+}
+
+async fn collect(r: &mut Raw, sentinel: &[u8], from: usize) -> Result<SubObs, S6Err> {
+    let mut so = SubObs::default();
+    so.complete = r.until_payload(sentinel).await?;
+    if !so.complete {
+        so.lost = Some(r.join().await?);
+    }
+    so.received = r.pubs[from..].iter().filter(|p| !p.payload.starts_with(b"sentinel")).cloned().collect();
+    Ok(so)
+}
+
+async fn run_case(b: &Broker, case: &Case) -> Result<Obs, S6Err> {
+    let mut obs = Obs::default();
+    let n = case.n;
+    let mut subs = vec![];
+    for (i, s) in case.subs.iter().enumerate() {
+        subs.push(open_sub(b, case, s, &format!("c20s{n}_{i}")).await?);
+    }
+    let pver = if case.pub_v5 { Ver::V5 } else { Ver::V4 };
+    let mut p = helper_client(b, pver, &format!("c20p{n}")).await?;
+    obs.publisher_ok = true;
+    for (i, m) in case.msgs.iter().enumerate() {
+        let mut props = m.props.clone();
+        let mut topic = case.topic(&m.leaf).into_bytes();
+        if let (true, Some((alias, with_topic))) = (case.pub_v5, m.alias) {
+            props.push((canon::P_TOPIC_ALIAS, PVal::U16(alias)));
+            canon::sort_props(&mut props);
+            if !with_topic {
+                topic.clear();
+            }
+        }
+        if !p.publish(&topic, &case.payload(i), m.qos, m.retain, props).await? {
+            obs.publisher_ok = false;
+            obs.notes.push(format!("publisher lost its connection at message {i}"));
+            break;
+        }
+    }
+    // a will with will properties (the router turns them into publish properties)
+    if let Some(wp) = &case.will_props {
+        let mut c = s6::connect(5, &format!("c20w{n}"), true, 60);
+        c = s6::with_will(c, &case.topic("a"), &case.will_payload(), 1, false, wp.clone());
+        let mut w = b.open(b.listener(Ver::V5));
+        if !w.connect(&c).await?.accepted() {
+            return Err(S6Err::Harness("will client not accepted".into()));
+        }
+        w.close();
+        w.join().await?;
+        b.barrier().await?;
+    }
+    if !obs.publisher_ok {
+        // the publisher is gone: use a fresh one for the sentinel
+        p = helper_client(b, Ver::V4, &format!("c20q{n}")).await?;
+    }
+    let s1 = format!("sentinel1:{n}").into_bytes();
+    p.publish(case.topic("a").as_bytes(), &s1, 0, false, vec![]).await?;
+    for r in subs.iter_mut() {
+        obs.subs.push(collect(r, &s1, 0).await?);
+    }
+    // retained replay towards later subscribers
+    for (i, v5) in case.late.iter().enumerate() {
+        let spec = SubSpec {
+            v5: *v5,
+            wildcard: true,
+            qos: 1,
+            sub_id: None,
+            alias_max: 0,
+        };
+        let mut l = match open_late(b, case, &spec, &format!("c20l{n}_{i}")).await? {
+            Ok(l) => l,
+            Err(end) => {
+                // the broker ended the connection instead of answering the SUBSCRIBE (retained replay rides with the SUBACK)
+                obs.late.push(SubObs {
+                    complete: false,
+                    lost: Some(end),
+                    received: vec![],
+                });
+                continue;
+            }
+        };
+        let s2 = format!("sentinel2:{n}:{i}").into_bytes();
+        p.publish(case.topic("a").as_bytes(), &s2, 0, false, vec![]).await?;
+        let so = collect(&mut l, &s2, 0).await?;
+        obs.late.push(so);
+        finish_helper(l).await?;
+    }
+    // clear retained messages of this case
+    for leaf in ["a", "b"] {
+        p.publish(case.topic(leaf).as_bytes(), b"", 0, true, vec![]).await?;
+    }
+    for r in subs {
+        finish_helper(r).await?;
+    }
+    finish_helper(p).await?;
+    b.barrier().await?;
+    Ok(obs)
+}
+
+fn expectations(case: &Case) -> (Vec<Expect>, Vec<Expect>) {
+    // live: every message in order (+ the will); retained: the last retained message per topic
+    let mut live = vec![];
+    let mut retained: Vec<Expect> = vec![];
+    let mut aliases: std::collections::HashMap<u16, String> = Default::default();
+    for (i, m) in case.msgs.iter().enumerate() {
+        let mut topic = case.topic(&m.leaf);
+        if let (true, Some((alias, with_topic))) = (case.pub_v5, m.alias) {
+            if with_topic {
+                aliases.insert(alias, topic.clone());
+            } else if let Some(t) = aliases.get(&alias) {
+                topic = t.clone();
+            }
+        }
+        let e = Expect {
+            what: format!("message {i}"),
+            topic: topic.clone().into_bytes(),
+            payload: case.payload(i),
+            props: if case.pub_v5 { m.props.clone() } else { vec![] },
+        };
+        if m.retain {
+            retained.retain(|x| x.topic != e.topic);
+            retained.push(e.clone());
+        }
+        live.push(e);
+    }
+    if let Some(wp) = &case.will_props {
+        live.push(Expect {
+            what: "will".into(),
+            topic: case.topic("a").into_bytes(),
+            payload: case.will_payload(),
+            props: wp.iter().filter(|(i, _)| *i != canon::P_WILL_DELAY).cloned().collect(),
+        });
+    }
+    (live, retained)
+}
+
+fn base_record(case: &Case, oracle: &str, sub_v5: bool, msg: String) -> Record {
+    Record::new("C20", oracle, msg)
+        .fact("substrate", "S6")
+        .fact("publisher", if case.pub_v5 { "v5" } else { "v4" })
+        .fact("subscriber", if sub_v5 { "v5" } else { "v4" })
+}
+
+fn lost_record(case: &Case, sub_v5: bool, who: &str, lost: &Option<TaskEnd>) -> Record {
+    let r = base_record(case, "observer-lost", sub_v5, format!("{who} lost its connection before the sentinel (task: {lost:?})")).fact("message_props", case.has_props());
+    match lost {
+        Some(TaskEnd::Panicked { location, message }) => r
+            .fact("observer_task", "panicked")
+            .fact("panic_site", location.split(':').next().unwrap_or("?"))
+            .fact("panic_message", message.chars().take(80).collect::<String>()),
+        Some(TaskEnd::Returned) => r.fact("observer_task", "returned"),
+        None => r,
+    }
+}
+
+fn check_stream(case: &Case, who: &str, spec_v5: bool, spec: Option<&SubSpec>, so: &SubObs, expected: &[&Expect], stats: &mut Stats) -> Option<Record> {
+    if !so.complete {
+        return Some(lost_record(case, spec_v5, who, &so.lost));
+    }
+    for e in expected {
+        stats.oracle("delivered-same-topic-and-payload");
+        let same_payload: Vec<&RxPub> = so.received.iter().filter(|r| r.payload == e.payload).collect();
+        let Some(got) = same_payload.first() else {
+            // maybe it arrived with another payload on this topic? report as missing
+            return Some(
+                base_record(case, "not-delivered", spec_v5, format!("{who}: {} (topic {}) never arrived; received payloads: {:?}", e.what, String::from_utf8_lossy(&e.topic), so.received.iter().map(|r| String::from_utf8_lossy(&r.payload).chars().take(24).collect::<String>()).collect::<Vec<_>>()))
+                    .fact("what", e.what.split(' ').next().unwrap_or("")),
+            );
+        };
+        if got.topic != e.topic {
+            let mut r = base_record(
+                case,
+                "topic-differs",
+                spec_v5,
+                format!("{who}: {} published on {} arrived on {}", e.what, String::from_utf8_lossy(&e.topic), String::from_utf8_lossy(&got.topic)),
+            )
+            .fact("via_alias", got.via_alias);
+            if let Some(s) = spec {
+                r = r.fact("subscriber_alias_max", s.alias_max > 0).fact("wildcard_filter", s.wildcard);
+            }
+            return Some(r);
+        }
+        if spec_v5 {
+            stats.oracle("properties-preserved");
+            if let Some(d) = props_diff(&e.props, &got.props) {
+                return Some(base_record(case, "properties-not-preserved", spec_v5, format!("{who}: {}: {d}", e.what)).fact("what", e.what.split(' ').next().unwrap_or("")));
+            }
+        } else {
+            stats.oracle("properties-dropped");
+            if !got.props.is_empty() {
+                return Some(base_record(case, "properties-towards-v4", spec_v5, format!("{who}: {} arrived with properties {:?}", e.what, got.props)));
+            }
+        }
+    }
+    None
+}
+
+fn check(case: &Case, obs: &Obs, stats: &mut Stats) -> Option<Record> {
+    let (live, retained) = expectations(case);
+    for (i, (spec, so)) in case.subs.iter().zip(obs.subs.iter()).enumerate() {
+        let exp: Vec<&Expect> = live.iter().filter(|e| spec.wildcard || e.topic == case.topic("a").into_bytes()).collect();
+        // messages published after the publisher was dropped are not owed
+        let exp: Vec<&Expect> = if obs.publisher_ok { exp } else { vec![] };
+        let who = format!("subscriber {i} ({}{}{})", if spec.v5 { "v5" } else { "v4" }, if spec.wildcard { ", wildcard" } else { "" }, if spec.alias_max > 0 { ", topic aliases" } else { "" });
+        if let Some(r) = check_stream(case, &who, spec.v5, Some(spec), so, &exp, stats) {
+            return Some(r);
+        }
+    }
+    if !obs.publisher_ok {
+        return Some(base_record(case, "publisher-dropped", false, format!("the publisher's connection was ended by the broker: {:?}", obs.notes)));
+    }
+    for (i, (v5, so)) in case.late.iter().zip(obs.late.iter()).enumerate() {
+        let exp: Vec<&Expect> = retained.iter().collect();
+        let who = format!("later subscriber {i} ({})", if *v5 { "v5" } else { "v4" });
+        stats.oracle("retained-replay");
+        if let Some(r) = check_stream(case, &who, *v5, None, so, &exp, stats) {
+            return Some(r.fact("retained_replay", true));
+        }
+    }
+    None
+}
+
+fn gen_props(rng: &mut Rng, mask: u32) -> Props {
+    // bit 0..4: payload format, message expiry, content type, response topic, correlation data; bit 5: user properties
+    let mut p: Props = vec![];
+    if mask & 1 != 0 {
+        p.push((canon::P_PAYLOAD_FORMAT, PVal::U8(1)));
+    }
+    if mask & 2 != 0 {
+        p.push((canon::P_MESSAGE_EXPIRY, PVal::U32(*rng.pick(&[1u32, 60, 86_400, u32::MAX]))));
+    }
+    if mask & 4 != 0 {
+        p.push((canon::P_CONTENT_TYPE, PVal::Str(canon::gen_str(rng, &Sizes::small(), 0))));
+    }
+    if mask & 8 != 0 {
+        p.push((canon::P_RESPONSE_TOPIC, PVal::Str(canon::gen_topic(rng, &Sizes::small()))));
+    }
+    if mask & 16 != 0 {
+        p.push((canon::P_CORRELATION_DATA, PVal::Bin(canon::gen_bin(rng, &Sizes::small()))));
+    }
+    if mask & 32 != 0 {
+        for _ in 0..rng.range(1, 3) {
+            p.push((canon::P_USER, PVal::Pair(canon::gen_str(rng, &Sizes::small(), 0), canon::gen_str(rng, &Sizes::small(), 0))));
+        }
+    }
+    canon::sort_props(&mut p);
+    p
+}
+
+fn gen_case(n: u64, rng: &mut Rng, trigger_v4: bool, trigger_alias: bool, mask_hint: u32) -> Case {
+    let pub_v5 = rng.chance(3, 5);
+    let k = rng.range(1, 6) as usize;
+    let with_props = pub_v5 && rng.chance(3, 4);
+    let mut msgs = vec![];
+    let mut alias_set: Vec<u16> = vec![];
+    for i in 0..k {
+        let mask = if !with_props {
+            0
+        } else if i == 0 {
+            mask_hint & 63
+        } else {
+            rng.below(64) as u32
+        };
+        let alias = if pub_v5 && with_props && rng.chance(1, 3) {
+            let a = rng.range(1, 2) as u16;
+            // the topic name can only be left out once the alias is established, and then the leaf is the alias' leaf
+            let known = alias_set.contains(&a);
+            if !known {
+                alias_set.push(a);
+            }
+            Some((a, !known || rng.chance(1, 2)))
+        } else {
+            None
+        };
+        msgs.push(Msg {
+            // alias 1 <-> leaf a, alias 2 <-> leaf b keeps the expectation simple and still re-maps on every named use
+            leaf: match alias {
+                Some((1, _)) => "a".into(),
+                Some((_, _)) => "b".into(),
+                None => rng.pick(&["a", "a", "b"]).to_string(),
+            },
+            qos: rng.below(3) as u8,
+            retain: rng.chance(1, 3),
+            payload_len: if rng.chance(1, 40) { 20_000 } else { *rng.pick(&[0usize, 0, 0, 100, 127, 128, 300]) },
+            props: gen_props(rng, mask),
+            alias,
+        });
+    }
+    let props_present = msgs.iter().any(|m| !m.props.is_empty() || m.alias.is_some());
+    let will_props = (rng.chance(1, 5)).then(|| {
+        let mask = rng.range(1, 63) as u32;
+        let mut p = gen_props(rng, mask);
+        if rng.chance(1, 4) {
+            p.push((canon::P_WILL_DELAY, PVal::U32(0)));
+            canon::sort_props(&mut p);
+        }
+        p
+    });
+    // towards 3.1.1 subscribers MQTT 5 properties reproduce the known V4::write defect
+    let v4_allowed = trigger_v4 || !(pub_v5 && props_present || will_props.is_some());
+    let nsubs = rng.range(1, 4);
+    let mut subs = vec![];
+    for _ in 0..nsubs {
+        let v5 = !v4_allowed || rng.chance(1, 2);
+        let alias_max = if v5 && rng.chance(1, 3) { *rng.pick(&[1u16, 2, 10]) } else { 0 };
+        let wildcard = if alias_max > 0 && !trigger_alias { false } else { rng.chance(1, 2) };
+        subs.push(SubSpec {
+            v5,
+            wildcard,
+            qos: rng.below(3) as u8,
+            sub_id: (v5 && rng.chance(1, 3)).then(|| *rng.pick(&[1u32, 127, 128, 268_435_455])),
+            alias_max,
+        });
+    }
+    if v4_allowed && pub_v5 && !subs.iter().any(|s| !s.v5) {
+        subs[0].v5 = false;
+        subs[0].sub_id = None;
+        subs[0].alias_max = 0;
+    }
+    let late = if rng.chance(1, 2) {
+        vec![!v4_allowed || rng.chance(1, 2), !v4_allowed || rng.chance(1, 2)]
+    } else {
+        vec![]
+    };
+    Case {
+        n,
+        pub_v5,
+        subs,
+        msgs,
+        late,
+        will_props,
+    }
+}
+
+fn replay_doc(case: &Case, obs: &Obs) -> Value {
+    let (live, retained) = expectations(case);
+    json!({"substrate": "S6", "case": case, "expected_live": live, "expected_retained": retained, "observed": obs})
+}
+
+fn new_broker(rt: &Rt) -> Broker {
+    Broker::start(rt, s6::router_config(64), vec![ListenerCfg::plain(Ver::V4), ListenerCfg::plain(Ver::V5)])
+}
+
+fn account(case: &Case, stats: &mut Stats) {
+    stats.evaluations += 1;
+    stats.shapes.insert(case.shape());
+    stats.opn("messages", case.msgs.len() as u64);
+    for s in &case.subs {
+        let pair = format!("pair:{}->{}", if case.pub_v5 { "v5" } else { "v4" }, if s.v5 { "v5" } else { "v4" });
+        stats.corner(&pair);
+        if s.alias_max > 0 {
+            stats.corner("subscriber-with-topic-aliases");
+        }
+        if s.sub_id.is_some() {
+            stats.corner("subscription-identifier");
+        }
+    }
+    for m in &case.msgs {
+        if !m.props.is_empty() {
+            stats.corner("publish-with-properties");
+        }
+        if m.alias.is_some() {
+            stats.corner("publisher-topic-alias");
+        }
+        if m.retain {
+            stats.corner("retained-publish");
+        }
+        stats.sig(format!("props:{:?}", m.props.iter().map(|p| p.0).collect::<std::collections::BTreeSet<_>>()));
+    }
+    if !case.late.is_empty() {
+        stats.corner("retained-replay-observed");
+    }
+    if case.will_props.is_some() {
+        stats.corner("will-with-properties");
+    }
+}
+
+fn run_cases(ctx: &Ctx, rt: &Rt, cases: &[Case], stats: &mut Stats) {
+    let mut broker = new_broker(rt);
+    let mut on_broker = 0;
+    for case in cases {
+        if on_broker >= 400 {
+            broker = new_broker(rt);
+            on_broker = 0;
+        }
+        on_broker += 1;
+        match rt.block_on(run_case(&broker, case)) {
+            Ok(obs) => {
+                account(case, stats);
+                if let Some(rec) = check(case, &obs, stats) {
+                    match judge(ctx, stats, rec, || replay_doc(case, &obs)) {
+                        Judged::Known(_) | Judged::Violation => {}
+                    }
+                    broker = new_broker(rt);
+                    on_broker = 0;
+                } else if stats.samples.len() < 2 && case.has_props() && case.subs.iter().any(|s| s.v5) {
+                    stats.sample(replay_doc(case, &obs));
+                }
+            }
+            Err(S6Err::RouterGone(p)) => {
+                let rec = Record::new("C20", "router-panic", format!("router thread ended: {p:?}")).fact("site", p.as_ref().map(panic_site).unwrap_or_default());
+                judge(ctx, stats, rec, || json!({"substrate": "S6", "case": case}));
+                broker = new_broker(rt);
+                on_broker = 0;
+            }
+            Err(e) => {
+                stats.inconclusive.push(format!("S6 case {}: {e}", case.n));
+                broker = new_broker(rt);
+                on_broker = 0;
+            }
+        }
+        if stats.violations.len() >= 3 || stats.inconclusive.len() >= 5 {
+            break;
+        }
+    }
+}
+
+// ---------------------------------------------------------------- real rumqttc event loops on both sides
+
+#[derive(Clone, Debug, Serialize, Deserialize)]
+pub struct RealCase {
+    pub n: u64,
+    pub pub_v5: bool,
+    pub sub_v5: bool,
+    pub qos: Vec<u8>,
+    /// MQTT 5 publisher: content type + user property on every message
+    pub props: bool,
+}
+
+#[derive(Clone, Debug, Default, Serialize)]
+pub struct RealObs {
+    /// (topic, payload, content type, user properties)
+    pub received: Vec<(String, String, Option<String>, Vec<(String, String)>)>,
+    pub error: Option<String>,
+    /// a broker connection task of this case panicked: (source file, message)
+    pub broker_task_panic: Option<(String, String)>,
+}
+
+fn q4(q: u8) -> rumqttc::QoS {
+    match q {
+        0 => rumqttc::QoS::AtMostOnce,
+        1 => rumqttc::QoS::AtLeastOnce,
+        _ => rumqttc::QoS::ExactlyOnce,
+    }
+}
+fn q5(q: u8) -> rumqttc::v5::mqttbytes::QoS {
+    match q {
+        0 => rumqttc::v5::mqttbytes::QoS::AtMostOnce,
+        1 => rumqttc::v5::mqttbytes::QoS::AtLeastOnce,
+        _ => rumqttc::v5::mqttbytes::QoS::ExactlyOnce,
+    }
+}
+
+const REAL_WATCHDOG: Duration = Duration::from_secs(30);
+
+async fn run_real(b: &Broker, c: &RealCase) -> Result<RealObs, S6Err> {
+    use tokio::time::timeout;
+    let mut obs = RealObs::default();
+    let addr4 = format!("verif-s6-{}-{}-v4", b.router_id, c.n);
+    let addr5 = format!("verif-s6-{}-{}-v5", b.router_id, c.n);
+    let tasks4 = b.register_addr(&addr4, b.listener(Ver::V4));
+    let tasks5 = b.register_addr(&addr5, b.listener(Ver::V5));
+    let topic = format!("r{}/t", c.n);
+    let sentinel = format!("sentinel:{}", c.n);
+    let (tx, rx) = flume::unbounded::<Result<(String, String, Option<String>, Vec<(String, String)>), String>>();
+    let (sub_ready_tx, sub_ready_rx) = flume::bounded::<()>(1);
+
+    // subscriber: drive poll() until the sentinel arrives
+    let sub_task: tokio::task::JoinHandle<()> = if c.sub_v5 {
+        let mut o = rumqttc::v5::MqttOptions::new(format!("c20rs{}", c.n), addr5.clone(), 1883);
+        o.set_keep_alive(Duration::from_secs(60));
+        let (client, mut el) = rumqttc::v5::AsyncClient::new(o, 64);
+        let topic = topic.clone();
+        let sentinel = sentinel.clone();
+        tokio::spawn(async move {
+            use rumqttc::v5::mqttbytes::v5::Packet;
+            use rumqttc::v5::Event;
+            if let Err(e) = client.subscribe(topic, q5(2)).await {
+                tx.send(Err(format!("subscribe: {e}"))).ok();
+                return;
+            }
+            loop {
+                match el.poll().await {
+                    Ok(Event::Incoming(Packet::SubAck(_))) => {
+                        sub_ready_tx.try_send(()).ok();
+                    }
+                    Ok(Event::Incoming(Packet::Publish(p))) => {
+                        let payload = String::from_utf8_lossy(&p.payload).into_owned();
+                        let (ct, up) = match &p.properties {
+                            Some(pp) => (pp.content_type.clone(), pp.user_properties.clone()),
+                            None => (None, vec![]),
+                        };
+                        let done = payload == sentinel;
+                        tx.send(Ok((String::from_utf8_lossy(&p.topic).into_owned(), payload, ct, up))).ok();
+                        if done {
+                            // let the acknowledgement of the sentinel go out
+                            let _ = tokio::time::timeout(Duration::from_millis(50), el.poll()).await;
+                            return;
+                        }
+                    }
+                    Ok(_) => {}
+                    Err(e) => {
+                        tx.send(Err(format!("subscriber event loop: {e}"))).ok();
+                        return;
+                    }
+                }
+            }
+        })
+    } else {
+        let mut o = rumqttc::MqttOptions::new(format!("c20rs{}", c.n), addr4.clone(), 1883);
+        o.set_keep_alive(Duration::from_secs(60));
+        let (client, mut el) = rumqttc::AsyncClient::new(o, 64);
+        let topic = topic.clone();
+        let sentinel = sentinel.clone();
+        tokio::spawn(async move {
+            use rumqttc::{Event, Packet};
+            if let Err(e) = client.subscribe(topic, q4(2)).await {
+                tx.send(Err(format!("subscribe: {e}"))).ok();
+                return;
+            }
+            loop {
+                match el.poll().await {
+                    Ok(Event::Incoming(Packet::SubAck(_))) => {
+                        sub_ready_tx.try_send(()).ok();
+                    }
+                    Ok(Event::Incoming(Packet::Publish(p))) => {
+                        let payload = String::from_utf8_lossy(&p.payload).into_owned();
+                        let done = payload == sentinel;
+                        tx.send(Ok((p.topic.clone(), payload, None, vec![]))).ok();
+                        if done {
+                            let _ = tokio::time::timeout(Duration::from_millis(50), el.poll()).await;
+                            return;
+                        }
+                    }
+                    Ok(_) => {}
+                    Err(e) => {
+                        tx.send(Err(format!("subscriber event loop: {e}"))).ok();
+                        return;
+                    }
+                }
+            }
+        })
+    };
+    match timeout(REAL_WATCHDOG, sub_ready_rx.recv_async()).await {
+        Ok(Ok(())) => {}
+        Ok(Err(_)) => {
+            obs.error = Some(rx.try_recv().ok().and_then(|r| r.err()).unwrap_or_else(|| "subscriber ended before SUBACK".into()));
+            return Ok(obs);
+        }
+        Err(_) => return Err(S6Err::Watchdog("real subscriber: no SUBACK".into())),
+    }
+
+    // publisher: messages then the sentinel, poll() until every request is acknowledged
+    let total = c.qos.len() + 1;
+    let pub_task: tokio::task::JoinHandle<Result<(), String>> = if c.pub_v5 {
+        let mut o = rumqttc::v5::MqttOptions::new(format!("c20rp{}", c.n), addr5.clone(), 1883);
+        o.set_keep_alive(Duration::from_secs(60));
+        let (client, mut el) = rumqttc::v5::AsyncClient::new(o, 64);
+        let c = c.clone();
+        let topic = topic.clone();
+        let sentinel = sentinel.clone();
+        tokio::spawn(async move {
+            use rumqttc::v5::mqttbytes::v5::{Packet, PublishProperties};
+            use rumqttc::v5::Event;
+            for (i, q) in c.qos.iter().enumerate() {
+                let payload = format!("real:{}:{}", c.n, i);
+                let r = if c.props {
+                    let props = PublishProperties {
+                        content_type: Some("application/x-test".into()),
+                        user_properties: vec![("k".into(), format!("v{i}"))],
+                        ..Default::default()
+                    };
+                    client.publish_with_properties(topic.clone(), q5(*q), false, payload, props).await
+                } else {
+                    client.publish(topic.clone(), q5(*q), false, payload).await
+                };
+                r.map_err(|e| format!("publish: {e}"))?;
+            }
+            let mut written = 0;
+            let mut acked = 0;
+            let need_acks = c.qos.iter().filter(|q| **q > 0).count();
+            let mut sentinel_sent = false;
+            loop {
+                if !sentinel_sent && written >= c.qos.len() && acked >= need_acks {
+                    // a QoS 2 message enters the log only at PUBREL: the sentinel goes out after every message is acknowledged
+                    client.publish(topic.clone(), q5(1), false, sentinel.clone()).await.map_err(|e| format!("publish: {e}"))?;
+                    sentinel_sent = true;
+                }
+                match el.poll().await {
+                    Ok(Event::Outgoing(rumqttc::Outgoing::Publish(_))) => written += 1,
+                    Ok(Event::Incoming(Packet::PubAck(_))) | Ok(Event::Incoming(Packet::PubComp(_))) => acked += 1,
+                    Ok(_) => {}
+                    Err(e) => return Err(format!("publisher event loop: {e}")),
+                }
+                if sentinel_sent && written >= c.qos.len() + 1 && acked >= need_acks + 1 {
+                    return Ok(());
+                }
+            }
+        })
+    } else {
+        let mut o = rumqttc::MqttOptions::new(format!("c20rp{}", c.n), addr4.clone(), 1883);
+        o.set_keep_alive(Duration::from_secs(60));
+        let (client, mut el) = rumqttc::AsyncClient::new(o, 64);
+        let c = c.clone();
+        let topic = topic.clone();
+        let sentinel = sentinel.clone();
+        tokio::spawn(async move {
+            use rumqttc::{Event, Packet};
+            for (i, q) in c.qos.iter().enumerate() {
+                let payload = format!("real:{}:{}", c.n, i);
+                client.publish(topic.clone(), q4(*q), false, payload).await.map_err(|e| format!("publish: {e}"))?;
+            }
+            let mut written = 0;
+            let mut acked = 0;
+            let need_acks = c.qos.iter().filter(|q| **q > 0).count();
+            let mut sentinel_sent = false;
+            loop {
+                if !sentinel_sent && written >= c.qos.len() && acked >= need_acks {
+                    // a QoS 2 message enters the log only at PUBREL: the sentinel goes out after every message is acknowledged
+                    client.publish(topic.clone(), q4(1), false, sentinel.clone()).await.map_err(|e| format!("publish: {e}"))?;
+                    sentinel_sent = true;
+                }
+                match el.poll().await {
+                    Ok(Event::Outgoing(rumqttc::Outgoing::Publish(_))) => written += 1,
+                    Ok(Event::Incoming(Packet::PubAck(_))) | Ok(Event::Incoming(Packet::PubComp(_))) => acked += 1,
+                    Ok(_) => {}
+                    Err(e) => return Err(format!("publisher event loop: {e}")),
+                }
+                if sentinel_sent && written >= c.qos.len() + 1 && acked >= need_acks + 1 {
+                    return Ok(());
+                }
+            }
+        })
+    };
+    let _ = total;
+    match timeout(REAL_WATCHDOG, pub_task).await {
+        Ok(Ok(Ok(()))) => {}
+        Ok(Ok(Err(e))) => obs.error = Some(e),
+        Ok(Err(e)) => obs.error = Some(format!("publisher task: {e}")),
+        Err(_) => return Err(S6Err::Watchdog("real publisher did not finish".into())),
+    }
+    // everything up to the sentinel (or the subscriber's error)
+    loop {
+        match timeout(REAL_WATCHDOG, rx.recv_async()).await {
+            Ok(Ok(Ok(m))) => {
+                let done = m.1 == sentinel;
+                if done {
+                    break;
+                }
+                obs.received.push(m);
+            }
+            Ok(Ok(Err(e))) => {
+                obs.error.get_or_insert(e);
+                break;
+            }
+            Ok(Err(_)) => {
+                obs.error.get_or_insert("subscriber ended before the sentinel".into());
+                break;
+            }
+            Err(_) => return Err(S6Err::Watchdog("real subscriber: sentinel never arrived".into())),
+        }
+    }
+    sub_task.abort();
+    let _ = sub_task.await;
+    rumqttc::verif::unregister(&addr4);
+    rumqttc::verif::unregister(&addr5);
+    // the clients are gone: their connection tasks end; a panic in one of them explains a lost client
+    let mut handles: Vec<tokio::task::JoinHandle<()>> = tasks4.lock().unwrap().drain(..).collect();
+    handles.extend(tasks5.lock().unwrap().drain(..));
+    for h in handles {
+        match timeout(REAL_WATCHDOG, h).await {
+            Ok(Err(e)) if e.is_panic() => {
+                let payload = e.into_panic();
+                let message = payload
+                    .downcast_ref::<&str>()
+                    .map(|s| (*s).to_owned())
+                    .or_else(|| payload.downcast_ref::<String>().cloned())
+                    .unwrap_or_else(|| "?".into());
+                let site = s6::find_panic("s6w-", Some(&message)).map(|r| r.location.split(':').next().unwrap_or("?").to_owned()).unwrap_or_else(|| "?".into());
+                obs.broker_task_panic = Some((site, message));
+            }
+            Ok(_) => {}
+            Err(_) => return Err(S6Err::Watchdog("connection task of a real client did not end".into())),
+        }
+    }
+    b.barrier().await?;
+    Ok(obs)
+}
+
+fn check_real(c: &RealCase, obs: &RealObs, stats: &mut Stats) -> Option<Record> {
+    let rec = |oracle: &str, msg: String| {
+        Record::new("C20", oracle, msg)
+            .fact("substrate", "S6-real-clients")
+            .fact("publisher", if c.pub_v5 { "v5" } else { "v4" })
+            .fact("subscriber", if c.sub_v5 { "v5" } else { "v4" })
+            .fact("message_props", c.pub_v5 && c.props)
+    };
+    if let Some(e) = &obs.error {
+        let r = rec("observer-lost", format!("rumqttc client failed: {e} (broker connection task panic: {:?})", obs.broker_task_panic));
+        return Some(match &obs.broker_task_panic {
+            Some((site, message)) => r
+                .fact("observer_task", "panicked")
+                .fact("panic_site", site.clone())
+                .fact("panic_message", message.chars().take(80).collect::<String>()),
+            None => r.fact("observer_task", "real-client"),
+        });
+    }
+    for (i, _) in c.qos.iter().enumerate() {
+        stats.oracle("delivered-same-topic-and-payload");
+        let payload = format!("real:{}:{}", c.n, i);
+        let Some(m) = obs.received.iter().find(|m| m.1 == payload) else {
+            return Some(rec("not-delivered", format!("message {i} never reached the rumqttc subscriber")));
+        };
+        if m.0 != format!("r{}/t", c.n) {
+            return Some(rec("topic-differs", format!("message {i} arrived on topic {}", m.0)));
+        }
+        if c.sub_v5 && c.pub_v5 && c.props {
+            stats.oracle("properties-preserved");
+            if m.2.as_deref() != Some("application/x-test") || m.3 != vec![("k".to_owned(), format!("v{i}"))] {
+                return Some(rec("properties-not-preserved", format!("message {i}: content type {:?}, user properties {:?}", m.2, m.3)));
+            }
+        }
+    }
+    None
+}
+
+fn run_reals(ctx: &Ctx, rt: &Rt, cases: &[RealCase], stats: &mut Stats) {
+    let mut broker = new_broker(rt);
+    for c in cases {
+        match rt.block_on(run_real(&broker, c)) {
+            Ok(obs) => {
+                stats.evaluations += 1;
+                stats.shapes.insert(fnv(format!("real|{}|{}|{:?}|{}", c.pub_v5, c.sub_v5, c.qos, c.props).as_bytes()));
+                stats.corner(&format!("real-clients:{}->{}", if c.pub_v5 { "v5" } else { "v4" }, if c.sub_v5 { "v5" } else { "v4" }));
+                if let Some(rec) = check_real(c, &obs, stats) {
+                    judge(ctx, stats, rec, || json!({"substrate": "S6-real-clients", "case": c, "observed": obs}));
+                    broker = new_broker(rt);
+                }
+            }
+            Err(e) => {
+                stats.inconclusive.push(format!("S6 real-client case {}: {e}", c.n));
+                broker = new_broker(rt);
+            }
+        }
+        if stats.violations.len() >= 3 || stats.inconclusive.len() >= 5 {
+            break;
+        }
+    }
+}
+
+// ================================================================ S1: encode clause
+
+fn pub_props(mask: u32, rng: &mut Rng) -> dp::PublishProperties {
+    // bits: 0 PFI, 1 MEI, 2 topic alias, 3 response topic, 4 correlation data, 5 user, 6 subscription id, 7 content type
+    dp::PublishProperties {
+        payload_format_indicator: (mask & 1 != 0).then_some(1),
+        message_expiry_interval: (mask & 2 != 0).then(|| *rng.pick(&[0u32, 1, 86_400, u32::MAX])),
+        topic_alias: (mask & 4 != 0).then(|| *rng.pick(&[1u16, 2, 4096, u16::MAX])),
+        response_topic: (mask & 8 != 0).then(|| "resp/t".to_owned()),
+        correlation_data: (mask & 16 != 0).then(|| bytes::Bytes::from_static(b"\x00\x01corr")),
+        user_properties: if mask & 32 != 0 { vec![("k".into(), "v".into()), ("k".into(), "w".into())] } else { vec![] },
+        subscription_identifiers: if mask & 64 != 0 { vec![*rng.pick(&[1usize, 127, 128, 268_435_455])] } else { vec![] },
+        content_type: (mask & 128 != 0).then(|| "text/plain".to_owned()),
+    }
+}
+
+fn props_of_dp(p: &dp::PublishProperties) -> Props {
+    let mut b = canon::PropsBuilder::default();
+    b.u8(canon::P_PAYLOAD_FORMAT, p.payload_format_indicator)
+        .u32(canon::P_MESSAGE_EXPIRY, p.message_expiry_interval)
+        .u16(canon::P_TOPIC_ALIAS, p.topic_alias)
+        .str(canon::P_RESPONSE_TOPIC, &p.response_topic)
+        .bin(canon::P_CORRELATION_DATA, &p.correlation_data)
+        .users(&p.user_properties)
+        .vars(canon::P_SUBSCRIPTION_ID, &p.subscription_identifiers)
+        .str(canon::P_CONTENT_TYPE, &p.content_type);
+    b.done()
+}
+
+enum Enc {
+    Bytes(Vec<u8>),
+    Error(String),
+    Panic { site: String, message: String },
+    /// the notification converts to no packet at all
+    Nothing,
+}
+
+fn encode(n: Notification, v5: bool) -> Enc {
+    let r = guarded(move || {
+        let p: Option<dp::Packet> = n.into();
+        let Some(p) = p else { return Ok(None) };
+        let mut out = BytesMut::new();
+        let r = if v5 { dp::v5::V5.write(p, &mut out) } else { dp::v4::V4.write(p, &mut out) };
+        r.map(|_| Some(out.to_vec())).map_err(|e| e.to_string())
+    });
+    match r {
+        Ok(Ok(Some(b))) => Enc::Bytes(b),
+        Ok(Ok(None)) => Enc::Nothing,
+        Ok(Err(e)) => Enc::Error(e),
+        Err(p) => Enc::Panic {
+            site: panic_site(&p),
+            message: p.message,
+        },
+    }
+}
+
+fn client_decode(bytes: &[u8], v5: bool) -> Result<Canon, String> {
+    let mut buf = BytesMut::from(bytes);
+    let c = if v5 {
+        match decode_step::<C5>(&mut buf, 64 * 1024 * 1024).0 {
+            Step::Packet(p) => C5::canon(&p),
+            s => return Err(format!("client v5 codec: {}", s.class())),
+        }
+    } else {
+        match decode_step::<C4>(&mut buf, 64 * 1024 * 1024).0 {
+            Step::Packet(p) => C4::canon(&p),
+            s => return Err(format!("client v4 codec: {}", s.class())),
+        }
+    };
+    if !buf.is_empty() {
+        return Err(format!("{} bytes left behind the frame", buf.len()));
+    }
+    Ok(c)
+}
+
+/// One notification shape: emittable = the routing core has a code path that builds it
+struct Shape {
+    name: String,
+    kind: &'static str,
+    props: bool,
+    emittable: bool,
+    n: Notification,
+    /// expected content of a forward as the subscriber must decode it: (topic, payload, qos, retain, pkid, props)
+    forward: Option<(Vec<u8>, Vec<u8>, u8, bool, u16, Props)>,
+}
+
+fn all_reasons() -> Vec<dp::DisconnectReasonCode> {
+    use dp::DisconnectReasonCode::*;
+    vec![
+        NormalDisconnection,
+        DisconnectWithWillMessage,
+        UnspecifiedError,
+        MalformedPacket,
+        ProtocolError,
+        ImplementationSpecificError,
+        NotAuthorized,
+        ServerBusy,
+        ServerShuttingDown,
+        KeepAliveTimeout,
+        SessionTakenOver,
+        TopicFilterInvalid,
+        TopicNameInvalid,
+        ReceiveMaximumExceeded,
+        TopicAliasInvalid,
+        PacketTooLarge,
+        MessageRateTooHigh,
+        QuotaExceeded,
+        AdministrativeAction,
+        PayloadFormatInvalid,
+        RetainNotSupported,
+        QoSNotSupported,
+        UseAnotherServer,
+        ServerMoved,
+        SharedSubscriptionNotSupported,
+        ConnectionRateExceeded,
+        MaximumConnectTime,
+        SubscriptionIdentifiersNotSupported,
+        WildcardSubscriptionsNotSupported,
+    ]
+}
+
+fn shapes(v5: bool, rng: &mut Rng) -> Vec<Shape> {
+    let mut out = vec![];
+    // forwards: every subset of the eight publish properties x QoS x retain; towards a 3.1.1
+    // connection the router can only hold what a publisher sent (no alias, no subscription id)
+    for mask in 0u32..256 {
+        let emittable = v5 || mask & (4 | 64) == 0;
+        for qos in 0u8..3 {
+            let retain = (mask + qos as u32) % 2 == 1;
+            let alias_only_topic = v5 && mask & 4 != 0 && qos == 1;
+            let topic: &[u8] = if alias_only_topic { b"" } else { b"t/a" };
+            let payload = format!("p{mask}-{qos}").into_bytes();
+            let pkid = if qos == 0 { 0 } else { 1 + (mask as u16 % 100) };
+            let publish = dpkt::mk_publish(false, qos, pkid, retain, topic, &payload);
+            let props = pub_props(mask, rng);
+            let canon_props = props_of_dp(&props);
+            out.push(Shape {
+                name: format!("Forward(mask={mask:#010b}, qos={qos}, retain={retain}, topic={:?})", String::from_utf8_lossy(topic)),
+                kind: "Publish",
+                props: true,
+                emittable,
+                n: Notification::Forward(Forward {
+                    cursor: Some((0, mask as u64)),
+                    size: 0,
+                    publish,
+                    properties: Some(props),
+                }),
+                forward: Some((topic.to_vec(), payload, qos, retain, pkid, if v5 { canon_props } else { vec![] })),
+            });
+        }
+    }
+    // a forward without properties
+    for qos in 0u8..3 {
+        let pkid = if qos == 0 { 0 } else { 7 };
+        out.push(Shape {
+            name: format!("Forward(no properties, qos={qos})"),
+            kind: "Publish",
+            props: false,
+            emittable: true,
+            n: Notification::Forward(Forward {
+                cursor: None,
+                size: 0,
+                publish: dpkt::mk_publish(false, qos, pkid, false, b"t/a", b"x"),
+                properties: None,
+            }),
+            forward: Some((b"t/a".to_vec(), b"x".to_vec(), qos, false, pkid, vec![])),
+        });
+    }
+    let ack = |name: &str, kind: &'static str, props: bool, emittable: bool, a: Ack| Shape {
+        name: name.to_owned(),
+        kind,
+        props,
+        emittable,
+        n: Notification::DeviceAck(a),
+        forward: None,
+    };
+    // acknowledgements the router builds (router/logs.rs AckLog): without properties, CONNACK with
+    let connack_props = dp::ConnAckProperties {
+        session_expiry_interval: None,
+        receive_max: None,
+        max_qos: None,
+        retain_available: None,
+        max_packet_size: None,
+        assigned_client_identifier: Some("rumqtt-x".into()),
+        topic_alias_max: Some(4096),
+        reason_string: None,
+        user_properties: vec![],
+        wildcard_subscription_available: None,
+        subscription_identifiers_available: None,
+        shared_subscription_available: None,
+        server_keep_alive: None,
+        response_information: None,
+        server_reference: None,
+        authentication_method: None,
+        authentication_data: None,
+    };
+    for sp in [false, true] {
+        for code in [dp::ConnectReturnCode::Success, dp::ConnectReturnCode::ClientIdentifierNotValid] {
+            let a = dp::ConnAck {
+                session_present: sp,
+                code,
+            };
+            out.push(ack(&format!("ConnAck({code:?}, sp={sp}, with properties)"), "ConnAck", true, true, Ack::ConnAck(3, a.clone(), Some(connack_props.clone()))));
+            out.push(ack(&format!("ConnAck({code:?}, sp={sp}, no properties)"), "ConnAck", false, true, Ack::ConnAck(3, a, None)));
+        }
+    }
+    for pkid in [1u16, 65535] {
+        let puback = dp::PubAck {
+            pkid,
+            reason: dp::PubAckReason::Success,
+        };
+        let pubrec = dp::PubRec {
+            pkid,
+            reason: dp::PubRecReason::Success,
+        };
+        let pubrel = dp::PubRel {
+            pkid,
+            reason: dp::PubRelReason::Success,
+        };
+        let pubcomp = dp::PubComp {
+            pkid,
+            reason: dp::PubCompReason::Success,
+        };
+        out.push(ack(&format!("PubAck({pkid})"), "PubAck", false, true, Ack::PubAck(puback.clone())));
+        out.push(ack(&format!("PubRec({pkid})"), "PubRec", false, true, Ack::PubRec(pubrec.clone())));
+        out.push(ack(&format!("PubRel({pkid})"), "PubRel", false, true, Ack::PubRel(pubrel.clone())));
+        out.push(ack(&format!("PubComp({pkid})"), "PubComp", false, true, Ack::PubComp(pubcomp.clone())));
+        out.push(ack(&format!("UnsubAck({pkid})"), "UnsubAck", false, true, Ack::UnsubAck(dp::UnsubAck { pkid, reasons: vec![dp::UnsubAckReason::Success] })));
+        for codes in [
+            vec![dp::SubscribeReasonCode::Success(dp::QoS::AtMostOnce)],
+            vec![dp::SubscribeReasonCode::Success(dp::QoS::ExactlyOnce), dp::SubscribeReasonCode::Failure, dp::SubscribeReasonCode::Success(dp::QoS::AtLeastOnce)],
+        ] {
+            out.push(ack(&format!("SubAck({pkid}, {} codes)", codes.len()), "SubAck", false, true, Ack::SubAck(dp::SubAck { pkid, return_codes: codes })));
+        }
+        // variants with properties: the Ack type has them, no router code path builds them (reported, not judged)
+        let rs = Some("because".to_owned());
+        out.push(ack(
+            "PubAckWithProperties",
+            "PubAck",
+            true,
+            false,
+            Ack::PubAckWithProperties(
+                puback,
+                dp::PubAckProperties {
+                    reason_string: rs.clone(),
+                    user_properties: vec![],
+                },
+            ),
+        ));
+        out.push(ack(
+            "PubRecWithProperties",
+            "PubRec",
+            true,
+            false,
+            Ack::PubRecWithProperties(
+                pubrec,
+                dp::PubRecProperties {
+                    reason_string: rs.clone(),
+                    user_properties: vec![],
+                },
+            ),
+        ));
+        out.push(ack(
+            "PubRelWithProperties",
+            "PubRel",
+            true,
+            false,
+            Ack::PubRelWithProperties(
+                pubrel,
+                dp::PubRelProperties {
+                    reason_string: rs.clone(),
+                    user_properties: vec![],
+                },
+            ),
+        ));
+        out.push(ack(
+            "PubCompWithProperties",
+            "PubComp",
+            true,
+            false,
+            Ack::PubCompWithProperties(
+                pubcomp,
+                dp::PubCompProperties {
+                    reason_string: rs.clone(),
+                    user_properties: vec![],
+                },
+            ),
+        ));
+        out.push(ack(
+            "SubAckWithProperties",
+            "SubAck",
+            true,
+            false,
+            Ack::SubAckWithProperties(
+                dp::SubAck {
+                    pkid,
+                    return_codes: vec![dp::SubscribeReasonCode::Success(dp::QoS::AtMostOnce)],
+                },
+                dp::SubAckProperties {
+                    reason_string: rs.clone(),
+                    user_properties: vec![],
+                },
+            ),
+        ));
+    }
+    out.push(ack("PingResp", "PingResp", false, true, Ack::PingResp(dp::PingResp)));
+    // router-initiated DISCONNECT: any reason, never with properties (handle_disconnection)
+    for reason_code in all_reasons() {
+        out.push(Shape {
+            name: format!("Disconnect({reason_code:?})"),
+            kind: "Disconnect",
+            props: false,
+            emittable: true,
+            n: Notification::Disconnect(dp::Disconnect { reason_code }, None),
+            forward: None,
+        });
+    }
+    out.push(Shape {
+        name: "Disconnect(ServerBusy, with properties)".into(),
+        kind: "Disconnect",
+        props: true,
+        emittable: false,
+        n: Notification::Disconnect(
+            dp::Disconnect {
+                reason_code: dp::DisconnectReasonCode::ServerBusy,
+            },
+            Some(dp::DisconnectProperties {
+                session_expiry_interval: None,
+                reason_string: Some("busy".into()),
+                user_properties: vec![],
+                server_reference: None,
+            }),
+        ),
+        forward: None,
+    });
+    out.push(Shape {
+        name: "Unschedule".into(),
+        kind: "Unschedule",
+        props: false,
+        emittable: true,
+        n: Notification::Unschedule,
+        forward: None,
+    });
+    out
+}
+
+fn encode_clause(ctx: &Ctx, seed: u64) -> Stats {
+    let mut stats = Stats::default();
+    let mut rng = Rng::new(seed ^ 0x20e);
+    let mut not_emittable: std::collections::BTreeMap<String, u64> = Default::default();
+    for v5 in [false, true] {
+        let proto = if v5 { "v5" } else { "v4" };
+        for sh in shapes(v5, &mut rng) {
+            stats.evaluations += 1;
+            stats.shapes.insert(fnv(format!("enc|{proto}|{}", sh.name).as_bytes()));
+            stats.op(&format!("encode:{proto}:{}", sh.kind));
+            let enc = encode(sh.n.clone(), v5);
+            let fail: Option<Record> = match &enc {
+                Enc::Nothing => None,
+                Enc::Panic { site, message } => {
+                    stats.panics_caught += 1;
+                    Some(
+                        Record::new("C20", "encode-panic", format!("{proto} encoder panicked on {} at {site}: {message}", sh.name))
+                            .fact("protocol", proto)
+                            .fact("packet", sh.kind)
+                            .fact("props", sh.props)
+                            .fact("site", site.clone()),
+                    )
+                }
+                Enc::Error(e) => Some(
+                    Record::new("C20", "encode-error", format!("{proto} encoder refused {}: {e}", sh.name))
+                        .fact("protocol", proto)
+                        .fact("packet", sh.kind)
+                        .fact("props", sh.props),
+                ),
+                Enc::Bytes(b) => match client_decode(b, v5) {
+                    Err(e) => Some(
+                        Record::new("C20", "encoded-undecodable", format!("{proto} encoding of {} is not accepted by the client codec: {e}", sh.name))
+                            .fact("protocol", proto)
+                            .fact("packet", sh.kind)
+                            .fact("props", sh.props),
+                    ),
+                    Ok(c) => match &sh.forward {
+                        Some((topic, payload, qos, retain, pkid, props)) => {
+                            let mut got_props = c.props.clone();
+                            canon::sort_props(&mut got_props);
+                            let mut want = props.clone();
+                            canon::sort_props(&mut want);
+                            if c.ptype != canon::PUBLISH || c.topic != *topic || c.payload != *payload || c.qos != *qos || c.retain != *retain || c.pkid != *pkid {
+                                Some(
+                                    Record::new("C20", "forward-content", format!("{proto} encoding of {} decodes to {}", sh.name, c.summary()))
+                                        .fact("protocol", proto)
+                                        .fact("packet", sh.kind),
+                                )
+                            } else if got_props != want {
+                                let oracle = if v5 { "properties-not-preserved" } else { "properties-towards-v4" };
+                                Some(
+                                    Record::new("C20", oracle, format!("{proto} encoding of {} carries properties {:?}, the notification had {:?}", sh.name, got_props, want))
+                                        .fact("substrate", "S1")
+                                        .fact("protocol", proto),
+                                )
+                            } else {
+                                None
+                            }
+                        }
+                        None => None,
+                    },
+                },
+            };
+            if sh.emittable {
+                stats.oracle(&format!("encodable-{proto}"));
+                if let Some(rec) = fail {
+                    match judge(ctx, &mut stats, rec, || json!({"substrate": "S1", "protocol": proto, "notification": sh.name})) {
+                        Judged::Known(_) | Judged::Violation => {}
+                    }
+                }
+            } else if let Some(rec) = fail {
+                let what = sh.name.split('(').next().unwrap_or("").to_owned();
+                *not_emittable.entry(format!("{proto}: {what} ({}) -> {}", if sh.kind == "Publish" { "with topic alias or subscription identifier" } else { "with properties" }, rec.oracle)).or_default() += 1;
+            }
+        }
+    }
+    stats.extra.insert("not_emittable_shapes_that_fail".into(), json!(not_emittable));
+    stats.exhaustive_scopes.push("S1: Forward with every subset of the 8 publish properties x QoS 0-2 (retain alternating), every acknowledgement the router builds, DISCONNECT with every reason code, for V4.write and V5.write".into());
+    stats
+}
+
+// ================================================================ driver
+
+fn s6_part(ctx: &Ctx) -> Stats {
+    let shards = if ctx.quick() { ctx.threads.clamp(1, 8) } else { ctx.threads.max(1) };
+    let total = ctx.size(4_000, 60_000);
+    let reals = ctx.size(160, 1_600);
+    let trigger_pct = if ctx.quick() { 15 } else { 3 };
+    sharded(ctx, shards, |shard, seed| {
+        let mut stats = Stats::default();
+        let mut rng = Rng::new(seed ^ 0xc20);
+        let rt = Rt::new(&format!("c20-{shard}"), 3);
+        let mut counter: u64 = (shard as u64 + 1) * 10_000_000;
+        let mine = total / shards as u64 + 1;
+        let mut cases = vec![];
+        for i in 0..mine {
+            counter += 1;
+            let trigger_v4 = rng.chance(trigger_pct, 100);
+            let trigger_alias = rng.chance(trigger_pct, 100);
+            // the first message of consecutive cases walks through all 64 subsets of the compared properties
+            let mask_hint = (i as u32).wrapping_add(shard as u32 * 8) % 64;
+            cases.push(gen_case(counter, &mut rng, trigger_v4, trigger_alias, mask_hint));
+        }
+        run_cases(ctx, &rt, &cases, &mut stats);
+        if stats.violations.is_empty() {
+            let mut rc = vec![];
+            for i in 0..(reals / shards as u64 + 1) {
+                counter += 1;
+                let pair = (i as usize + shard) % 4;
+                let pub_v5 = pair & 1 == 1;
+                let sub_v5 = pair & 2 == 2;
+                let k = rng.range(1, 5);
+                // properties towards a 3.1.1 rumqttc subscriber reproduce the known V4::write defect
+                let props = pub_v5 && (sub_v5 || rng.chance(trigger_pct, 100));
+                rc.push(RealCase {
+                    n: counter,
+                    pub_v5,
+                    sub_v5,
+                    qos: (0..k).map(|_| rng.below(3) as u8).collect(),
+                    props,
+                });
+            }
+            run_reals(ctx, &rt, &rc, &mut stats);
+        }
+        stats
+    })
+}
+
+fn run(ctx: &Ctx) -> Stats {
+    let mut stats = encode_clause(ctx, ctx.seed);
+    let s6 = s6_part(ctx);
+    stats.merge(s6);
+    stats
+}
+
+fn replay(ctx: &Ctx, doc: &Value) -> Stats {
+    let mut stats = Stats::default();
+    if doc["substrate"] == "S1" {
+        let s = encode_clause(ctx, ctx.seed);
+        println!("replayed the whole encode clause (it is a fixed enumeration); looked for {}", doc["notification"]);
+        return s;
+    }
+    let rt = Rt::new("c20-replay", 3);
+    if doc["substrate"] == "S6-real-clients" {
+        match serde_json::from_value::<RealCase>(doc["case"].clone()) {
+            Ok(c) => run_reals(ctx, &rt, &[c], &mut stats),
+            Err(e) => stats.inconclusive.push(format!("replay: cannot read case: {e}")),
+        }
+    } else {
+        match serde_json::from_value::<Case>(doc["case"].clone()) {
+            Ok(c) => run_cases(ctx, &rt, &[c], &mut stats),
+            Err(e) => stats.inconclusive.push(format!("replay: cannot read case: {e}")),
+        }
+    }
+    stats.shapes.insert(1);
+    stats.shapes.insert(2);
+    stats
 }
 
 pub fn prop() -> Prop {
@@ -13,11 +1455,29 @@ pub fn prop() -> Prop {
         id: "C20",
         meta: Meta {
             level: "exploration",
-            rule: "not built",
-            assumptions: &[],
-            floors: &[],
+            rule: "S6: seeded cases of one publisher (v4/v5) sending 1-6 messages (QoS 0-2, retained or not, payloads 0-20000 bytes, every subset of payload format / message expiry / content type / response topic / correlation data / user properties walked through by the first message of consecutive cases, publisher-side topic aliases) to 1-4 subscribers (v4/v5, exact or wildcard filter, QoS 0-2, subscription identifiers, Topic Alias Maximum), later subscribers for retained replays, a will with will properties; plus real rumqttc v4/v5 event loops on both sides for the four version pairs. Distinct = (publisher version, subscriber specs, per message (topic, QoS, retain, size class, property identifiers, alias use), later subscribers, will property identifiers). S1: one case per notification shape and protocol (fixed enumeration).",
+            assumptions: &[
+                "S6 connections are in-memory duplex pipes entered through Server::verif_accept; everything behind them is production code",
+                "topic alias and subscription identifier are the broker's to rewrite and are not compared; the message expiry interval may be smaller than sent",
+                "notification shapes no router code path builds (acks with properties, DISCONNECT with properties) are executed and listed under coverage.not_emittable_shapes_that_fail, not judged",
+                "MQTT 5 properties towards 3.1.1 subscribers are generated in ~15 % of the cases only (known finding KF-C20-V4PROPS)",
+            ],
+            floors: &[
+                ("pair:v4->v4", 20),
+                ("pair:v4->v5", 20),
+                ("pair:v5->v4", 20),
+                ("pair:v5->v5", 50),
+                ("properties-preserved", 100),
+                ("properties-dropped", 50),
+                ("retained-replay", 30),
+                ("will-with-properties", 10),
+                ("encodable-v4", 200),
+                ("encodable-v5", 800),
+                ("real-clients:v4->v5", 2),
+                ("real-clients:v5->v4", 2),
+            ],
         },
         run,
-        replay: None,
+        replay: Some(replay),
     }
 }
